@@ -35,13 +35,13 @@ def gen(tier, rng):
         for line in c04.exhaustive(1, ty):
             t, body, outs = from_c04(line)
             yield from cases_for(t, body, outs)
-    plan = [(2, 1, 6000), (2, 0, 1500), (3, 1, 3000)] if quick else [(2, 1, None), (2, 0, None), (3, 1, 60000), (3, 0, 10000)]
+    plan = [(2, 1, 12000), (2, 0, 3000), (3, 1, 6000), (3, 0, 1000)] if quick else [(2, 1, None), (2, 0, None), (3, 1, 100000), (3, 0, 20000)]
     for depth, ty, sample in plan:
         for line in c04.exhaustive(depth, ty, rng, sample=sample):
             t, body, outs = from_c04(line)
             yield from cases_for(t, body, outs, rng, all_seeds=(sample is None))
     # --- random programs: 1..40 instructions, 1..4 variables, each seeded in turn
-    n = 6000 if quick else 80000
+    n = 15000 if quick else 150000
     for i in range(n):
         ty = 1 if rng.random() < 0.6 else 0
         r = rng.random()
@@ -51,7 +51,7 @@ def gen(tier, rng):
         body = c04.random_prog(rng, ty, size, rng.randrange(1, 5), real=(ty == 1 or rng.random() < 0.5))
         outs = list(range(size)) if size <= 6 else c04.choose_outs(rng, size)
         yield from cases_for(ty, body, outs, rng, all_seeds=(rng.random() < 0.5))
-    for i in range(400 if quick else 4000):
+    for i in range(1200 if quick else 10000):
         ty = rng.randrange(2)
         size = rng.randrange(10, 30 if ty == 0 else 41)
         body = c04.random_prog(rng, ty, size, rng.randrange(1, 4), real=False, pconst=0.05)
@@ -70,11 +70,7 @@ def nontrivial(case_line, model_out):
 
 
 def distribution(lines):
-    kinds = {}
-    for l in lines:
-        ty = l.split()[2]
-        kinds["ty" + ty] = kinds.get("ty" + ty, 0) + 1
-    return {"element_type": kinds}
+    return c04.distribution(lines)
 
 
 ASSUMPTIONS = c04.ASSUMPTIONS
